@@ -3,7 +3,7 @@ import PsModel.Model.C08
 import PsModel.Spec.C08
 /-! line-protocol front end of the C08 model
 
-`C08 (<L|N> (funcs (dec ...) ...) (steps ...))`
+`C08 (<L|N|NP> (funcs (dec ...) ...) (steps ...))`   (`NP` = new subsystem in its pre-fix shape, `New.Flags.preFix`)
 * dec   = `(e|m|w key <filter|none> ((k val) ...))`
 * val   = `none | (i n) | (s str) | (b 0|1) | (d (k val) ...) | (l val ...)`
 * filter= `(cmp op key sub|- val) | (and f g) | (or f g) | (not f) | (name key) | (name key sub) | (true)`   (python semantics, an
@@ -289,7 +289,7 @@ def showLegacy (fs : List (List Dec)) (st : Legacy.State) : String :=
 
 /-! ### the new run -/
 
-def runNew (fs : List (List Dec)) (steps : List DStep) : Except String New.State :=
+def runNew (fl : New.Flags) (fs : List (List Dec)) (steps : List DStep) : Except String New.State :=
   let decs := fs.flatten
   steps.foldlM (fun st ds =>
     match ds with
@@ -305,7 +305,7 @@ def runNew (fs : List (List Dec)) (steps : List DStep) : Except String New.State
     | .fin a _ k =>
       match findRun st.started (fun r => r.dec == a) k with
       | some r => pure (New.step decs st (.finish r))
-      | Option.none => throw "no-such-run") (New.init fs)
+      | Option.none => throw "no-such-run") (New.init fl fs)
 
 def showNew (decs : List Dec) (st : New.State) : String :=
   let slots : List (Nat × Dec) := (List.range decs.length).filterMap (fun i => decs[i]?.map (fun d => (i, d)))
@@ -330,8 +330,8 @@ def handle (x : Sexp) : String :=
         match runLegacy funcs steps with
         | .ok st => showLegacy funcs st
         | .error e => s!"err {e}"
-      else if mode == "N" then
-        match runNew funcs steps with
+      else if mode == "N" || mode == "NP" then
+        match runNew (if mode == "NP" then New.Flags.preFix else New.Flags.current) funcs steps with
         | .ok st => showNew funcs.flatten st
         | .error e => s!"err {e}"
       else "err bad-mode"
